@@ -2,8 +2,11 @@ package main
 
 import (
 	"bytes"
+	"encoding/binary"
 	"fmt"
 	"io"
+	"os"
+	"path/filepath"
 	"runtime"
 	"sync"
 	"sync/atomic"
@@ -218,6 +221,15 @@ func c20Program(seed uint64, steps int) *transcript {
 			src := *cur
 			enter(pool)
 			blob := ser.Serialize(nil, src)
+			if r.Chance(1, 5) && len(blob) > 16 {
+				// a damaged copy first: failed decodes must not poison what later calls share
+				bad := append([]byte{}, blob...)
+				for i := 1; i <= 6; i++ {
+					bad[len(bad)-i] ^= 0x5a
+				}
+				_, derr := ser.Deserialize(bad, nil)
+				t.add("deser-damaged", []byte(fmt.Sprint(derr != nil)))
+			}
 			out, err := ser.Deserialize(blob, serDst)
 			leave(pool)
 			if err != nil {
@@ -303,7 +315,100 @@ func min(a, b int) int {
 	return b
 }
 
+// Cold start: the first use of the package's shared serializer state happens
+// in many goroutines at once (one trial per process life).
+func (w *W) c20ColdStart() {
+	dir := filepath.Dir(w.OutPath)
+	raw, err := os.ReadFile(filepath.Join(dir, "c20-blobs.bin"))
+	if err != nil {
+		w.Inconclusive("cold start: no blob file: " + err.Error())
+		return
+	}
+	type item struct{ blob, dump []byte }
+	var items []item
+	for len(raw) >= 8 {
+		bl := int(binary.LittleEndian.Uint32(raw[:4]))
+		dl := int(binary.LittleEndian.Uint32(raw[4:8]))
+		items = append(items, item{raw[8 : 8+bl], raw[8+bl : 8+bl+dl]})
+		raw = raw[8+bl+dl:]
+	}
+	if len(items) == 0 {
+		w.Inconclusive("cold start: empty blob file")
+		return
+	}
+	n := 4 * runtime.GOMAXPROCS(0)
+	cs := &ev.Case{Gen: "c20-coldstart", A: int64(n), Text: fmt.Sprintf("goroutines=%d", n)}
+	w.Journal(cs)
+	start := make(chan struct{})
+	var wg sync.WaitGroup
+	errs := make([]string, n)
+	for g := 0; g < n; g++ {
+		g := g
+		wg.Add(1)
+		go func() {
+			defer wg.Done()
+			it := items[g%len(items)]
+			<-start
+			// very first library call of this goroutine and (for one of them) of the process
+			s := simdjson.NewSerializer()
+			out, err := s.Deserialize(it.blob, nil)
+			if err != nil {
+				errs[g] = "Deserialize: " + err.Error()
+				return
+			}
+			roots, werr := walk.Into(out)
+			if werr != nil || !bytes.Equal(dumpRoots(roots), it.dump) {
+				errs[g] = fmt.Sprintf("document differs (%v)", werr)
+			}
+		}()
+	}
+	close(start)
+	wg.Wait()
+	w.Eval(n)
+	for g, e := range errs {
+		if e != "" {
+			w.Violation("C20/cold-start", fmt.Sprintf("goroutine %d of %d, first use of a Serializer in this process: %s", g, n, e), cs)
+		}
+	}
+	w.Count("cold_start_trials", 1)
+	w.Count("programs", n)
+	w.Nontrivial(gen.Hash64([]byte(fmt.Sprint("coldstart", w.Out.Shard, w.Out.Variant))))
+}
+
 func runC20(w *W) {
+	switch w.Out.Mode {
+	case "emit":
+		// blobs for the cold-start trials (this process may use the serializer freely)
+		r := w.rng("c20emit")
+		f, err := os.Create(filepath.Join(filepath.Dir(w.OutPath), "c20-blobs.bin"))
+		if err != nil {
+			w.Inconclusive("cannot write blob file")
+			return
+		}
+		defer f.Close()
+		for i := 0; i < 8; i++ {
+			d := w.c11MakeDoc(r, "cold", gen.Doc(r.Split(), gen.DocCfg{Size: 2000 + 20000*(i%3), MaxDepth: 4, MaxFan: 6, Esc: 20, DupKeys: true}), false, 0)
+			if d == nil {
+				continue
+			}
+			s := simdjson.NewSerializer()
+			s.CompressMode([]simdjson.CompressMode{simdjson.CompressBest, simdjson.CompressDefault}[i%2])
+			blob := s.Serialize(nil, *d.pj)
+			var h [8]byte
+			binary.LittleEndian.PutUint32(h[:4], uint32(len(blob)))
+			binary.LittleEndian.PutUint32(h[4:], uint32(len(d.dump)))
+			f.Write(h[:])
+			f.Write(blob)
+			f.Write(d.dump)
+			w.Eval(1)
+		}
+		w.Nontrivial(1)
+		w.Nontrivial(2)
+		return
+	case "coldstart":
+		w.c20ColdStart()
+		return
+	}
 	rounds := 10
 	steps := 25
 	if w.thorough() {
